@@ -18,11 +18,19 @@ import (
 
 const prop = "C15"
 
+// rep is what the oracles need from the engine: *mc.SeqCtx (Engine B) and
+// *mc.X (Engine A) both provide it.
+type rep interface {
+	FailP(prop, fingerprint, format string, args ...any)
+	Logf(format string, args ...any)
+	Failed() bool
+}
+
 // config describes one mc.Seq: the stack under test, its geometry and the
 // alphabet.
 type config struct {
 	name               string
-	stack              string // "full": quota(blockdev(fake device, bitmap)); "block": blockdev only; "quotafake": quota(fake base pool)
+	stack              string // "full": quota(blockdev(fake device, bitmap)); "block": blockdev only; "quotafake": quota(fake base pool); "quotaconc": quota(concBase), Engine A only
 	ss, capS           int    // sector size in bytes, capacity in sectors
 	maxFiles, maxBytes int    // quota; maxFiles == 0: no quota layer
 	pattern            bool   // pattern hole source instead of ZeroHoleSource
@@ -34,11 +42,12 @@ type config struct {
 	ballast            bool  // pre-allocate most of the device so that the next allocations cross a bitmap word
 	preopen            []int // sizes of the files that exist in the initial state (one per slot), saves depth
 	depth              map[string]int
+	baseFaults         bool // Engine A, "quotaconc": every base pool call may fail (one deviation each)
 }
 
 func (c *config) hasQuota() bool { return c.maxFiles > 0 }
 func (c *config) hasDevice() bool {
-	return c.stack != "quotafake"
+	return c.stack != "quotafake" && c.stack != "quotaconc"
 }
 
 // origin records where a tag byte came from.
@@ -77,6 +86,10 @@ type sys struct {
 	nextID  int
 	origins [256]origin
 	ballast []uint32
+	cbase   *concBase // "quotaconc" stack only
+	// Engine A only (nil under Engine B): the execution, for oracles that
+	// live inside fakes.
+	x *mc.X
 	// lastOp names the kind and outcome of the most recent operation; it
 	// makes the fingerprints of state-based oracles specific.
 	lastOp string
@@ -92,6 +105,9 @@ func newSys(cfg *config) *sys {
 			s.setupBallast()
 		}
 		base = rpool.NewBlockDeviceBackedFilePool(s.dev, s.alloc, cfg.ss)
+	} else if cfg.stack == "quotaconc" {
+		s.cbase = &concBase{s: s}
+		base = s.cbase
 	} else {
 		base = &fakeBasePool{fl: s.fl}
 	}
@@ -169,7 +185,7 @@ func (s *sys) freshTags(n, file int, offs func(i int) int, kind byte) []byte {
 // fail reports a violation found by a state-based oracle; the fingerprint
 // names the oracle and the kind and outcome of the operation that led to the
 // state.
-func (s *sys) fail(c *mc.SeqCtx, fingerprint, format string, args ...any) {
+func (s *sys) fail(c rep, fingerprint, format string, args ...any) {
 	c.FailP(prop, fingerprint+"/after-"+s.lastOp, format, args...)
 }
 
@@ -233,7 +249,7 @@ func (s *sys) freeSectors() int {
 // Operations
 // ---------------------------------------------------------------------
 
-func (s *sys) doNewFile(c *mc.SeqCtx, slot, size int) {
+func (s *sys) doNewFile(c rep, slot, size int) {
 	id := s.nextID
 	s.nextID++
 	var hs rpool.HoleSource = rpool.ZeroHoleSource
@@ -289,7 +305,7 @@ func (s *sys) doNewFile(c *mc.SeqCtx, slot, size int) {
 	s.files[slot] = fs
 }
 
-func (s *sys) doWrite(c *mc.SeqCtx, slot, off, n int) {
+func (s *sys) doWrite(c rep, slot, off, n int) {
 	fs := s.files[slot]
 	buf := s.freshTags(n, fs.id, func(i int) int { return off + i }, 'w')
 	old := len(fs.content)
@@ -350,7 +366,7 @@ func (s *sys) doWrite(c *mc.SeqCtx, slot, off, n int) {
 	s.resync(c, fs, "WriteAt", lo, end, end, buf, off)
 }
 
-func (s *sys) doTruncate(c *mc.SeqCtx, slot, size int) {
+func (s *sys) doTruncate(c rep, slot, size int) {
 	fs := s.files[slot]
 	old := len(fs.content)
 	_, sumOthers := s.openCountAndBytes(fs)
@@ -387,7 +403,7 @@ func (s *sys) doTruncate(c *mc.SeqCtx, slot, size int) {
 	s.resync(c, fs, "Truncate", lo, hi, size, nil, 0)
 }
 
-func (s *sys) doClose(c *mc.SeqCtx, slot int) {
+func (s *sys) doClose(c rep, slot int) {
 	fs := s.files[slot]
 	fired0 := s.fl.fired
 	err := fs.f.Close()
@@ -412,7 +428,7 @@ func (s *sys) doClose(c *mc.SeqCtx, slot int) {
 // the hole source's byte inside the range [lo,hi) touched by the operation
 // (anything else is an isolation breach), demands unchanged contents outside
 // it, and then adopts what it saw as the new model.
-func (s *sys) resync(c *mc.SeqCtx, fs *fileSt, op string, lo, hi, target int, newVals []byte, newOff int) {
+func (s *sys) resync(c rep, fs *fileSt, op string, lo, hi, target int, newVals []byte, newOff int) {
 	saved := s.fl.suspend()
 	defer s.fl.resume(saved)
 	old := fs.content
@@ -457,7 +473,7 @@ func (s *sys) resync(c *mc.SeqCtx, fs *fileSt, op string, lo, hi, target int, ne
 // Check: non-destructive observation of every state
 // ---------------------------------------------------------------------
 
-func (s *sys) check(c *mc.SeqCtx) {
+func (s *sys) check(c rep) {
 	saved := s.fl.suspend()
 	defer s.fl.resume(saved)
 	for _, fs := range s.files {
@@ -479,8 +495,8 @@ var (
 	stats   = map[string]int{}
 )
 
-func stat(c *mc.SeqCtx, name string) {
-	if statsOn && !c.Replaying {
+func stat(c rep, name string) {
+	if sc, ok := c.(*mc.SeqCtx); statsOn && !(ok && sc.Replaying) {
 		statsMu.Lock()
 		stats[name]++
 		statsMu.Unlock()
@@ -523,7 +539,7 @@ func (s *sys) isData(fs *fileSt, o int) bool {
 	return fs.hs != nil && o < fs.hsLimit && o < len(fs.hs.data) && fs.hs.data[o]
 }
 
-func (s *sys) checkFile(c *mc.SeqCtx, fs *fileSt) {
+func (s *sys) checkFile(c rep, fs *fileSt) {
 	size := len(fs.content)
 	if l, err := fs.f.Len(); err != nil || int(l) != size {
 		s.fail(c, "size/Len", "file#%d: Len() = %d, %v; model size %d", fs.id, l, err, size)
@@ -673,7 +689,7 @@ func (s *sys) checkFile(c *mc.SeqCtx, fs *fileSt) {
 // Sectors: every sector referenced by a file is marked allocated, no sector
 // is referenced twice, nothing else is allocated, the sentinel bits past the
 // capacity stay allocated. Quota: remaining + in use == configured maximum.
-func (s *sys) checkConservation(c *mc.SeqCtx) {
+func (s *sys) checkConservation(c rep) {
 	open, sum := s.openCountAndBytes(nil)
 	for _, fs := range s.files {
 		if fs == nil {
@@ -760,7 +776,7 @@ func (s *sys) checkConservation(c *mc.SeqCtx) {
 // Final: destructive differential oracle, from every distinct state
 // ---------------------------------------------------------------------
 
-func (s *sys) final(c *mc.SeqCtx) {
+func (s *sys) final(c rep) {
 	s.fl.suspend()
 	s.lastOp = "close-all"
 	for slot, fs := range s.files {
